@@ -15,8 +15,10 @@
 //   -mode real  : real event loops on loopback / unix sockets, seeded random clients, handler
 //                 durations and deadlines around Shutdown; one `obs` line per scenario.
 //   -mode emfile: descriptor exhaustion (RLIMIT_NOFILE lowered in this process), two episodes.
-//   -mode stretch: descriptor exhaustion of chosen lengths: a Listener handed to Serve fails the first k accepts
-//                 with EMFILE (k up to beyond the length of the back-off goroutine's delay table).
+//   -mode stretch: descriptor exhaustion as a script of accept results: a Listener handed to Serve answers its first
+//                 accepts from the script (EMFILE / ENFILE, other errno values accept(2) may report, a real accept
+//                 in between), k consecutive EMFILE up to beyond the length of the back-off goroutine's delay table
+//                 and fault sequences EMFILE^k followed by / mixed with transient errors included.
 package netpoll
 
 import (
@@ -1241,27 +1243,43 @@ func srvEmfile(opsOut string) int {
 	return writeLines(opsOut, []string{line})
 }
 
-// ---------------------------------------------------------------- exhaustion stretches of a chosen length
+// ---------------------------------------------------------------- exhaustion stretches: scripted accept results
 
-// stretchLn is the Listener handed to Serve: the first `remaining` Accept calls fail with EMFILE (the pending
-// connection stays in the kernel queue, exactly as with a real EMFILE), every later call is the real accept.
-// Everything else - OnRead, the back-off goroutine, its delay table - is the real code.
+// stretchLn is the Listener handed to Serve: its Accept answers the letters of `script` one per call, whoever calls
+// (the poller's OnRead or the back-off goroutine) - the pending connection stays in the kernel queue, exactly as
+// with a real failing accept(2) - and is the real accept once the script is used up.  Everything else - OnRead,
+// the back-off goroutine, its delay table - is the real code.
+//
+//	E EMFILE   N ENFILE                                  (descriptor exhaustion: isOutOfFdErr)
+//	a ECONNABORTED  i EINTR  p EPROTO  d ENETDOWN  b ENOBUFS  m ENOMEM  h EHOSTUNREACH  t ETIMEDOUT
+//	                                                      (errors accept(2) may report at any time)
+//	K the real accept (descriptors available for one call in the middle of the script)
 type stretchLn struct {
 	Listener
-	mu        sync.Mutex
-	remaining int
-	calls     []time.Time
-	results   []byte // E = EMFILE injected, C = connection, A = EAGAIN, X = other error
+	mu      sync.Mutex
+	script  string
+	pos     int
+	calls   []time.Time
+	results []byte // the script letter answered, or for a real accept: C = connection, A = EAGAIN, X = other error
+}
+
+var stretchErrno = map[byte]syscall.Errno{
+	'E': syscall.EMFILE, 'N': syscall.ENFILE,
+	'a': syscall.ECONNABORTED, 'i': syscall.EINTR, 'p': syscall.EPROTO, 'd': syscall.ENETDOWN, 'b': syscall.ENOBUFS,
+	'm': syscall.ENOMEM, 'h': syscall.EHOSTUNREACH, 't': syscall.ETIMEDOUT,
 }
 
 func (l *stretchLn) Accept() (net.Conn, error) {
 	l.mu.Lock()
 	l.calls = append(l.calls, time.Now())
-	if l.remaining > 0 {
-		l.remaining--
-		l.results = append(l.results, 'E')
-		l.mu.Unlock()
-		return nil, syscall.EMFILE
+	if l.pos < len(l.script) {
+		ch := l.script[l.pos]
+		l.pos++
+		if e, ok := stretchErrno[ch]; ok {
+			l.results = append(l.results, ch)
+			l.mu.Unlock()
+			return nil, e
+		}
 	}
 	l.mu.Unlock()
 	c, err := l.Listener.Accept()
@@ -1291,13 +1309,19 @@ func pingEcho(addr string, wait time.Duration) (net.Conn, func() bool) {
 	}
 }
 
-// one stretch: accept fails k times in a row; one client connects at its start, one after it
-func srvStretchOne(k int, table []int) string {
+// one stretch: accept answers the script; one client connects at its start, one after it
+func srvStretchOne(script string, table []int) string {
+	k := 0 // scripted failures
+	for i := 0; i < len(script); i++ {
+		if _, ok := stretchErrno[script[i]]; ok {
+			k++
+		}
+	}
 	raw, err := CreateListener("tcp", "127.0.0.1:0")
 	if err != nil {
-		return fmt.Sprintf("stretch k=%d harness_error=listen", k)
+		return fmt.Sprintf("stretch k=%d script=%s harness_error=listen", k, script)
 	}
-	ln := &stretchLn{Listener: raw, remaining: k}
+	ln := &stretchLn{Listener: raw, script: script}
 	evl, _ := NewEventLoop(func(ctx context.Context, c Connection) error {
 		r := c.Reader()
 		if n := r.Len(); n > 0 {
@@ -1317,9 +1341,9 @@ func srvStretchOne(k int, table []int) string {
 		}
 		time.Sleep(100 * time.Microsecond)
 	}
-	// how long the back-off goroutine of the model needs for k failures (the table is read from the code)
+	// how long the back-off goroutine of the model needs for that many failures in a row (the table is read from the code)
 	budget := 0
-	for j := 1; j < k+1; j++ {
+	for j := 1; j < len(script)+1; j++ {
 		i := j
 		if i >= len(table) {
 			i = len(table) - 1
@@ -1348,8 +1372,13 @@ func srvStretchOne(k int, table []int) string {
 	ln.mu.Lock()
 	calls := append([]time.Time(nil), ln.calls...)
 	results := string(ln.results)
+	left := len(ln.script) - ln.pos
 	ln.mu.Unlock()
-	// gaps in front of the back-off goroutine's accepts (call 0 is OnRead's), up to its first success
+	idle := 0 // ms since anybody called accept
+	if len(calls) > 0 {
+		idle = int(time.Since(calls[len(calls)-1]) / time.Millisecond)
+	}
+	// gaps in front of the accepts that follow the first one (OnRead's), up to the first connection among them
 	var gaps []string
 	for i := 1; i < len(calls) && i < len(results)+1; i++ {
 		gaps = append(gaps, strconv.Itoa(int(calls[i].Sub(calls[i-1])/time.Millisecond)))
@@ -1357,23 +1386,25 @@ func srvStretchOne(k int, table []int) string {
 			break
 		}
 	}
-	fails := strings.Count(results, "E")
+	fails := len(results) - strings.Count(results, "C") - strings.Count(results, "A")
 	ctx, cancel := context.WithTimeout(context.Background(), 2*time.Second)
 	sh := "nil"
 	if err := evl.Shutdown(ctx); err != nil {
 		sh = "ctx"
 	}
 	cancel()
+	ncalls := len(results)
 	if len(results) > 24 {
 		results = results[:24] + "+"
 	}
-	return fmt.Sprintf("stretch k=%d crashed=0 queued=1 served=%d fresh=%d fails=%d results=%s gaps=%s sh=%s",
-		k, served, fresh, fails, results, strings.Join(gaps, ","), sh)
+	return fmt.Sprintf("stretch k=%d script=%s crashed=0 queued=1 served=%d fresh=%d fails=%d left=%d accepts=%d idle_ms=%d results=%s gaps=%s sh=%s",
+		k, script, served, fresh, fails, left, ncalls, idle, results, strings.Join(gaps, ","), sh)
 }
 
 // srvStretch runs the stretches concurrently (each on its own event loop); one line per stretch as it ends, a
-// `begin` line when it starts, so that a process that dies half-way tells which stretches were in progress
-func srvStretch(ks string, factsPath, opsOut string) int {
+// `begin` line when it starts, so that a process that dies half-way tells which stretches were in progress.
+// ks: lengths (k = the script E^k); scripts: comma separated scripts (alphabet: see stretchLn)
+func srvStretch(ks, scripts string, factsPath, opsOut string) int {
 	var facts struct {
 		Retry struct {
 			Table []string `json:"table"`
@@ -1399,18 +1430,32 @@ func srvStretch(ks string, factsPath, opsOut string) int {
 		f.Sync()
 		mu.Unlock()
 	}
-	var wg sync.WaitGroup
+	var all []string
 	for _, x := range strings.Split(ks, ",") {
-		k, err := strconv.Atoi(strings.TrimSpace(x))
-		if err != nil || k < 1 {
-			continue
+		if k, err := strconv.Atoi(strings.TrimSpace(x)); err == nil && k >= 1 {
+			all = append(all, strings.Repeat("E", k))
 		}
+	}
+	for _, x := range strings.Split(scripts, ",") {
+		x = strings.TrimSpace(x)
+		ok := x != ""
+		for i := 0; i < len(x); i++ {
+			if _, known := stretchErrno[x[i]]; !known && x[i] != 'K' {
+				ok = false
+			}
+		}
+		if ok {
+			all = append(all, x)
+		}
+	}
+	var wg sync.WaitGroup
+	for _, sc := range all {
 		wg.Add(1)
-		go func(k int) {
+		go func(sc string) {
 			defer wg.Done()
-			emit(fmt.Sprintf("begin k=%d", k))
-			emit(srvStretchOne(k, table))
-		}(k)
+			emit("begin script=" + sc)
+			emit(srvStretchOne(sc, table))
+		}(sc)
 	}
 	wg.Wait()
 	f.Close()
@@ -1429,7 +1474,8 @@ func writeLines(path string, lines []string) int {
 func VerifSrvHMain(args []string) int {
 	fs := flag.NewFlagSet("srvh", flag.ContinueOnError)
 	mode := fs.String("mode", "sweep", "sweep | real | emfile | stretch")
-	ks := fs.String("ks", "", "stretch: comma separated lengths (consecutive failed accepts)")
+	ks := fs.String("ks", "", "stretch: comma separated lengths (consecutive failed accepts, all EMFILE)")
+	scripts := fs.String("scripts", "", "stretch: comma separated scripts of accept results (E N a i p d b m h t K)")
 	facts := fs.String("facts", "", "facts.json (server_steps)")
 	plan := fs.String("plan", "", "sweep plan: lines `<kind> <fn> <k>`")
 	opsOut := fs.String("ops-out", "", "")
@@ -1453,7 +1499,7 @@ func VerifSrvHMain(args []string) int {
 	case "emfile":
 		return srvEmfile(*opsOut)
 	case "stretch":
-		return srvStretch(*ks, *facts, *opsOut)
+		return srvStretch(*ks, *scripts, *facts, *opsOut)
 	}
 	return 2
 }
